@@ -7,7 +7,7 @@ use crate::gen::{self, DocParams, QGen};
 use crate::npath::{self, Step};
 use crate::report;
 use crate::rng::{derive, Rng};
-use crate::simdoc::{self, Personality, SimDoc};
+use crate::simdoc::{self, FatDoc, Personality, Sim, SimDoc};
 use jsonpath_rust::JsonPath;
 use serde::{Deserialize, Serialize};
 use serde_json::{json, Value};
@@ -18,6 +18,9 @@ pub struct Case {
     pub personality: u8,
     pub doc: Value,
     pub query: String,
+    /// the stub with the large node type (about half a kilobyte per node)
+    #[serde(default)]
+    pub fat: bool,
 }
 
 #[derive(Clone, Debug, Serialize, Deserialize)]
@@ -27,8 +30,8 @@ pub struct Diff {
     pub detail: String,
 }
 
-fn sim_locs(v: &SimDoc, cur: &mut Vec<Step>, out: &mut HashMap<usize, String>) {
-    out.insert(v as *const SimDoc as usize, npath::loc_str(cur));
+fn sim_locs<const P: usize>(v: &Sim<P>, cur: &mut Vec<Step>, out: &mut HashMap<usize, String>) {
+    out.insert(v as *const Sim<P> as usize, npath::loc_str(cur));
     for (st, x) in v.children() {
         cur.push(st);
         sim_locs(x, cur, out);
@@ -84,7 +87,7 @@ pub struct SimEval {
     pub trace: u64,
 }
 
-pub fn eval_sim(doc: &SimDoc, locs: &HashMap<usize, String>, p: Personality, q: &str) -> SimEval {
+pub fn eval_sim<const P: usize>(doc: &Sim<P>, locs: &HashMap<usize, String>, p: Personality, q: &str) -> SimEval {
     simdoc::set_personality(p);
     let _ = simdoc::take_counts();
     let _ = simdoc::take_trace();
@@ -96,8 +99,8 @@ pub fn eval_sim(doc: &SimDoc, locs: &HashMap<usize, String>, p: Personality, q: 
             .into_iter()
             .map(|r| {
                 let path = r.clone().path();
-                let n: &SimDoc = r.val();
-                (locs.get(&(n as *const SimDoc as usize)).cloned().unwrap_or("FOREIGN".into()), path, n.to_value())
+                let n: &Sim<P> = r.val();
+                (locs.get(&(n as *const Sim<P> as usize)).cloned().unwrap_or("FOREIGN".into()), path, n.to_value())
             })
             .collect()),
     };
@@ -140,10 +143,16 @@ pub fn compare(want: &Canon, got: &Canon) -> Option<Diff> {
 
 pub fn check_case(c: &Case) -> Option<Diff> {
     let want = eval_value(&c.doc, &c.query);
-    let sd = SimDoc::from_value(&c.doc);
     let mut locs = HashMap::new();
-    sim_locs(&sd, &mut vec![], &mut locs);
-    let got = eval_sim(&sd, &locs, Personality(c.personality), &c.query);
+    let got = if c.fat {
+        let sd = FatDoc::from_value(&c.doc);
+        sim_locs(&sd, &mut vec![], &mut locs);
+        eval_sim(&sd, &locs, Personality(c.personality), &c.query)
+    } else {
+        let sd = SimDoc::from_value(&c.doc);
+        sim_locs(&sd, &mut vec![], &mut locs);
+        eval_sim(&sd, &locs, Personality(c.personality), &c.query)
+    };
     compare(&want, &got.canon)
 }
 
@@ -190,7 +199,7 @@ fn shrink_doc(c: &Case, class: &str) -> Case {
         rounds += 1;
         let mut progressed = false;
         for d in cands(&cur.doc) {
-            let cand = Case { personality: cur.personality, doc: d, query: cur.query.clone() };
+            let cand = Case { personality: cur.personality, doc: d, query: cur.query.clone(), fat: cur.fat };
             if check_case(&cand).map(|x| x.class == class).unwrap_or(false) {
                 cur = cand;
                 progressed = true;
@@ -205,7 +214,7 @@ fn shrink_doc(c: &Case, class: &str) -> Case {
     for _ in 0..40 {
         let mut progressed = false;
         for q in gen::shrink_query(&cur.query) {
-            let cand = Case { personality: cur.personality, doc: cur.doc.clone(), query: q };
+            let cand = Case { personality: cur.personality, doc: cur.doc.clone(), query: q, fat: cur.fat };
             if check_case(&cand).map(|x| x.class == class).unwrap_or(false) {
                 cur = cand;
                 progressed = true;
@@ -219,7 +228,7 @@ fn shrink_doc(c: &Case, class: &str) -> Case {
     for _ in 0..100 {
         let mut progressed = false;
         for d in cands(&cur.doc) {
-            let cand = Case { personality: cur.personality, doc: d, query: cur.query.clone() };
+            let cand = Case { personality: cur.personality, doc: d, query: cur.query.clone(), fat: cur.fat };
             if check_case(&cand).map(|x| x.class == class).unwrap_or(false) {
                 cur = cand;
                 progressed = true;
@@ -233,7 +242,7 @@ fn shrink_doc(c: &Case, class: &str) -> Case {
     // a simpler personality that still shows it
     for bit in [4u8, 2, 1] {
         if cur.personality & bit != 0 {
-            let cand = Case { personality: cur.personality & !bit, doc: cur.doc.clone(), query: cur.query.clone() };
+            let cand = Case { personality: cur.personality & !bit, doc: cur.doc.clone(), query: cur.query.clone(), fat: cur.fat };
             if check_case(&cand).map(|x| x.class == class).unwrap_or(false) {
                 cur = cand;
             }
@@ -258,6 +267,7 @@ pub fn tier(name: &str) -> TierCfg {
 
 struct FamOut {
     evals: u64,
+    fat_evals: u64,
     nonempty: u64,
     shapes: BTreeSet<(u8, u64)>,
     counts: [u64; simdoc::N_ACC],
@@ -270,7 +280,7 @@ struct FamOut {
 }
 
 fn run_family(seed: u64, f: u64, q_per_fam: usize) -> FamOut {
-    let mut out = FamOut { evals: 0, nonempty: 0, shapes: BTreeSet::new(), counts: [0; simdoc::N_ACC], by_pers: [0; 8], errs: 0, first: None, n_viol: 0, sample: None, classes: BTreeMap::new() };
+    let mut out = FamOut { evals: 0, fat_evals: 0, nonempty: 0, shapes: BTreeSet::new(), counts: [0; simdoc::N_ACC], by_pers: [0; 8], errs: 0, first: None, n_viol: 0, sample: None, classes: BTreeMap::new() };
     let mut rng = Rng::new(derive(seed, "c15fam", f));
     let p = match f % 11 {
         3 => DocParams { max_nodes: 60 + rng.below(60), max_depth: 2 + rng.below(2), names: gen::NAMES_C15, max_width: 14, long_arrays: true },
@@ -285,6 +295,15 @@ fn run_family(seed: u64, f: u64, q_per_fam: usize) -> FamOut {
     for _ in 0..(1 + rng.below(2)) {
         docs.push(gen::perturb_leaf(&mut rng, &base));
     }
+    if f % 13 == 5 {
+        // the same document under 40-125 levels of nesting (still within what serde_json parses)
+        let levels = 40 + rng.below(86);
+        let mut v = base.clone();
+        for i in 0..levels {
+            v = if (i + f as usize) % 3 == 0 { json!({ "k": v }) } else { json!([v]) };
+        }
+        docs.push(v);
+    }
     let mut names = vec![];
     gen::names_of(&base, &mut names);
     let g = QGen { names: &names, fancy: true, regex: true, ext: true, safe_quotes: true };
@@ -294,14 +313,35 @@ fn run_family(seed: u64, f: u64, q_per_fam: usize) -> FamOut {
         let q = g.query(&mut rng, t);
         queries.push(if rng.chance(1, 12) { gen::invalidate(&mut rng, &q) } else { q });
     }
+    if f % 13 == 5 {
+        for q in ["$..k", "$..[0]", "$..*", "$[?count(@..k) >= 1]", "$..[?@..k]", "$..a"] {
+            queries.push(q.to_string());
+        }
+    }
     for d in &docs {
         let sd = SimDoc::from_value(d);
         let mut locs = HashMap::new();
         sim_locs(&sd, &mut vec![], &mut locs);
+        let fd = FatDoc::from_value(d);
+        let mut flocs = HashMap::new();
+        sim_locs(&fd, &mut vec![], &mut flocs);
         for q in &queries {
             let want = eval_value(d, q);
             if want.is_err() {
                 out.errs += 1;
+            }
+            // the large node type, under the two extreme personalities
+            for pers in [0u8, 7] {
+                let got = eval_sim(&fd, &flocs, Personality(pers), q);
+                out.evals += 1;
+                out.fat_evals += 1;
+                if let Some(diff) = compare(&want, &got.canon) {
+                    out.n_viol += 1;
+                    *out.classes.entry(diff.class.clone()).or_insert(0) += 1;
+                    if out.first.is_none() {
+                        out.first = Some((f, Case { personality: pers, doc: d.clone(), query: q.clone(), fat: true }, diff));
+                    }
+                }
             }
             for pers in 0..8u8 {
                 let got = eval_sim(&sd, &locs, Personality(pers), q);
@@ -320,7 +360,7 @@ fn run_family(seed: u64, f: u64, q_per_fam: usize) -> FamOut {
                     out.n_viol += 1;
                     *out.classes.entry(diff.class.clone()).or_insert(0) += 1;
                     if out.first.is_none() {
-                        out.first = Some((f, Case { personality: pers, doc: d.clone(), query: q.clone() }, diff));
+                        out.first = Some((f, Case { personality: pers, doc: d.clone(), query: q.clone(), fat: false }, diff));
                     }
                 } else if out.sample.is_none() && pers == 7 {
                     if let Ok(v) = &got.canon {
@@ -363,6 +403,7 @@ pub fn drive(tier_name: &str, seed: u64, workers: usize) -> i32 {
     let mut outs = outs.into_inner().unwrap();
     outs.sort_by_key(|(f, _)| *f);
     let mut evals = 0u64;
+    let mut fat_evals = 0u64;
     let mut nonempty = 0u64;
     let mut shapes: BTreeSet<(u8, u64)> = BTreeSet::new();
     let mut counts = [0u64; simdoc::N_ACC];
@@ -374,6 +415,7 @@ pub fn drive(tier_name: &str, seed: u64, workers: usize) -> i32 {
     let mut classes: BTreeMap<String, u64> = BTreeMap::new();
     for (_, o) in outs {
         evals += o.evals;
+        fat_evals += o.fat_evals;
         nonempty += o.nonempty;
         shapes.extend(o.shapes);
         for i in 0..simdoc::N_ACC {
@@ -491,7 +533,7 @@ pub fn drive(tier_name: &str, seed: u64, workers: usize) -> i32 {
             "personality_bits": "bit0: as_f64 is None for integers; bit1: Default::default() is a sentinel string; bit2: Debug is opaque",
             "how_to_replay": "./check C15 --replay <this file>"});
         let p = report::write_replay("C15", &format!("seed{}-fam{}", seed, f), &body);
-        println!("violation class={} personality={} query={} document={} — {}", d2.class, min.personality, min.query, min.doc, d2.detail);
+        println!("violation class={} personality={}{} query={} document={} — {}", d2.class, min.personality, if min.fat { " (large node type)" } else { "" }, min.query, min.doc.to_string().chars().take(600).collect::<String>(), d2.detail);
         report::print_violation("C15", &p);
         replay_path = Some(p);
         exit = 1;
@@ -536,6 +578,8 @@ pub fn drive(tier_name: &str, seed: u64, workers: usize) -> i32 {
         "rule": "one evaluation = one query evaluated by the real engine over the stubbed store under one personality (configuration) and compared with the same query over the equivalent serde_json::Value (paths, values, Ok/Err, and that every returned reference points into the store that was passed in); non-trivial = the result is a non-empty node list; distinct = distinct (personality, FNV hash of the accessor-call sequence) pair",
         "samples": samples,
         "single_threaded_evaluations": evals,
+        "evaluations_over_the_large_node_type": fat_evals,
+        "node_sizes_in_bytes": {"serde_json::Value": std::mem::size_of::<Value>(), "SimDoc": std::mem::size_of::<SimDoc>(), "FatDoc": std::mem::size_of::<FatDoc>()},
         "evaluations_with_non_empty_result": nonempty,
         "value_side_errors": errs,
         "evaluations_by_personality": by_pers.iter().enumerate().map(|(i, n)| (format!("p{}", i), *n)).collect::<BTreeMap<_, _>>(),
@@ -547,7 +591,7 @@ pub fn drive(tier_name: &str, seed: u64, workers: usize) -> i32 {
         "simulated_time": format!("{} scheduler steps in the scheduled class; the system under test reads no clock", threaded_steps),
         "faults_injected": {"client_abort": threaded_faults},
         "real_components": ["jsonpath-rust parser and evaluator (generic code instantiated at SimDoc and at serde_json::Value)", "regex", "pest", "Value's extension_custom (the stub delegates to it)"],
-        "stubbed_components": ["the document store: SimDoc, a second Queryable implementation with 8 personalities", "OS scheduling in the scheduled class"],
+        "stubbed_components": ["the document store: SimDoc, a second Queryable implementation with 8 personalities, and FatDoc, the same view in a node type of about half a kilobyte", "OS scheduling in the scheduled class"],
         "replay": replay_path.as_ref().map(|p: &std::path::PathBuf| p.display().to_string()),
     });
     report::write_evidence(&report::Evidence {
